@@ -266,7 +266,8 @@ def _set_expected(ex, result):
 CER_SET = Contract(
     id='cer.encoder::SetEncoder.encodeValue[value-object,3-members]', file=F, qual='SetEncoder.encodeValue',
     properties=['C03', 'C04', 'C02'],
-    params=dict(self=PObj('SetEncoder', methods={'_componentSortKey': _member_sort_key}), value=PDerived(_set_record),
+    params=dict(self=PObj('SetEncoder', methods={'_componentSortKey': _member_sort_key, '_memberSortKey': _member_sort_key}),
+                value=PDerived(_set_record),
                 asn1Spec=PConst(None), encodeFun=PConst(FnV(_encode_member3, 'encodeFun')), options=POptions()),
     globals={'set_expected': FnV(_set_expected, 'set_expected'), 'null': SeqV(z3.Empty(z3.SeqSort(z3.IntSort())), 'bytes')},
     loops={0: Loop(unroll=True), 2: Loop(unroll=True)},
@@ -276,3 +277,32 @@ CER_SET = Contract(
          'contracts _componentSortKey / _tagSortKey')
 CER_SET.bounded = 'SET types of exactly 3 members, every OPTIONAL / DEFAULT / value pattern and every assignment of tag keys'
 CONTRACTS = CONTRACTS + [CER_SET]
+
+
+# ---- the key of one SET member: a tagged open type field sorts by its own tag (what is on the wire), not by its inner value's ----
+def _msk_member(ex, env):
+    open_ = ex.choose(z3.Bool('member.hasOpenType'), 'open-type-member')
+    tagged = ex.choose(z3.Bool('field.isTagged'), 'field-tagged')
+    field_tags = Obj('TagSet', {'__truthy__': tagged}, name='field.tagSet')
+    declared = Obj('Asn1Type', {'tagSet': field_tags}, name='declaredType')
+    if ex.choose(z3.Bool('member.declared'), 'declared-member'):
+        nt = Obj('NamedType', {'openType': Obj('OpenType', {}, name='openType') if open_ else None, 'asn1Object': declared},
+                 name='namedType')
+    else:
+        nt = None
+    return Tup([Obj('Component', {}, name='component'), Obj('Asn1Type', {}, name='asn1Spec'), nt])
+
+
+_MSK_FIELD_KEY = Tup([z3.Int('fieldKey.class'), z3.Int('fieldKey.number')])
+_MSK_VALUE_KEY = Tup([z3.Int('valueKey.class'), z3.Int('valueKey.number')])
+MEMBER_SORT_KEY = Contract(
+    id='cer.encoder::SetEncoder._memberSortKey', file=F, qual='SetEncoder._memberSortKey', properties=['C03', 'C18', 'C04'],
+    params=dict(self=PObj('SetEncoder', methods={
+        '_tagSortKey': lambda ex, self, ts: _MSK_FIELD_KEY if ts.name == 'field.tagSet' else Tup([z3.Int('other.class'), z3.Int('other.number')]),
+        '_componentSortKey': lambda ex, self, pair: _MSK_VALUE_KEY}), member=PDerived(_msk_member)),
+    globals={'declared': z3.Bool('member.declared'), 'open_': z3.Bool('member.hasOpenType'), 'tagged': z3.Bool('field.isTagged'),
+             'fieldKey': _MSK_FIELD_KEY, 'valueKey': _MSK_VALUE_KEY},
+    ensures=[('tagged-open-type-field-by-its-own-tag', '(declared and open_ and tagged) ==> result == fieldKey'),
+             ('every-other-member-by-what-it-is', '(not (declared and open_ and tagged)) ==> result == valueKey')],
+    note='_tagSortKey and _componentSortKey are the callee contracts')
+CONTRACTS = CONTRACTS + [MEMBER_SORT_KEY]
